@@ -1,9 +1,11 @@
 #!/bin/sh
-# Offline setup: nothing is downloaded. Pre-builds the replay crate (real /repo crates) so
-# that a violation's witness search does not pay the first build.
+# Offline setup: nothing is downloaded. Pre-builds (no verification, no result cache) the
+# Kani unit crates and the replay crate so that the first quick run does not pay the builds.
 cd "$(dirname "$0")" || exit 1
 mkdir -p .build evidence/replay
 export CARGO_NET_OFFLINE=true
 python3 -c "import vx.run" || exit 1
 verus --version >/dev/null 2>&1 || { echo "verus not on PATH"; exit 1; }
+cargo kani --version >/dev/null 2>&1 || { echo "cargo kani not available"; exit 1; }
+python3 -m vx.prebuild || echo "prebuild incomplete (checks will build on demand)"
 exit 0
